@@ -66,6 +66,7 @@ Variable thr : Q.
 Variable maxit : option nat.
 Variable gain : state -> nat -> nat -> Q.
 Variable move : state -> nat -> nat -> state.
+Variable skey : state -> nat -> nat -> list Q.
 
 Lemma dq_length st u : length (dq_vec N gain st u) = N.
 Proof. unfold dq_vec. rewrite map_length, seq_length. reflexivity. Qed.
@@ -78,7 +79,7 @@ Proof.
 Qed.
 
 (* what the code's rule guarantees about the chosen target, and about declining to move *)
-Theorem select_some st u mb : select N thr gain st u = Some mb ->
+Theorem select_some st u mb : select N thr gain skey st u = Some mb ->
   (mb < N)%nat /\
   (0 <= thr -> lab st u <> mb /\ thr < gain st u mb) /\
   (forall t, (t < N)%nat -> t <> lab st u -> mb <> lab st u -> gain st u t <= gain st u mb) /\
@@ -101,7 +102,7 @@ Proof.
     rewrite <- Hn, !Qred_correct in Hfirst. exact Hfirst.
 Qed.
 
-Theorem select_none st u : select N thr gain st u = None ->
+Theorem select_none st u : select N thr gain skey st u = None ->
   forall t, (t < N)%nat -> t <> lab st u -> gain st u t <= thr.
 Proof.
   unfold select, decide. cbv zeta. intros E t Ht Hne.
@@ -115,7 +116,7 @@ Qed.
 
 Hypothesis thr_nonneg : 0 <= thr.
 
-Lemma select_legal st u mb : (u < N)%nat -> select N thr gain st u = Some mb ->
+Lemma select_legal st u mb : (u < N)%nat -> select N thr gain skey st u = Some mb ->
   legal N st u mb /\ 0 < gain st u mb.
 Proof.
   intros Hu E. destruct (select_some st u mb E) as (Hm & H & _). destruct (H thr_nonneg) as [Hne Hg].
@@ -134,21 +135,21 @@ Proof.
 Qed.
 
 Lemma sweep_good perm : forall st,
-  good_run N gain move st (moves_of (fst (sweep N thr gain move st perm))) /\
-  snd (sweep N thr gain move st perm) = run_moves move st (moves_of (fst (sweep N thr gain move st perm))).
+  good_run N gain move st (moves_of (fst (sweep N thr gain move skey st perm))) /\
+  snd (sweep N thr gain move skey st perm) = run_moves move st (moves_of (fst (sweep N thr gain move skey st perm))).
 Proof.
   induction perm as [|u r IH]; intros st; cbn [sweep].
   - cbn [fst snd moves_of flat_map run_moves]. split; [constructor|reflexivity].
   - destruct (Nat.ltb_spec u N) as [Hu|Hu]; [|apply IH]. cbv zeta. cbn [fst snd].
-    unfold moves_of. cbn [flat_map fst snd]. fold (select N thr gain st u).
-    destruct (select N thr gain st u) as [mb|] eqn:E.
+    unfold moves_of. cbn [flat_map fst snd]. fold (select N thr gain skey st u).
+    destruct (select N thr gain skey st u) as [mb|] eqn:E.
     + destruct (IH (move st u mb)) as [G F]. destruct (select_legal st u mb Hu E) as [Hl Hg].
       cbn [app run_moves]. split; [constructor; [exact Hl|exact Hg|exact G]|exact F].
     + cbn [app]. apply IH.
 Qed.
 
 Theorem sweeps_good perms : forall it st,
-  let r := sweeps N thr maxit gain move it st perms in
+  let r := sweeps N thr maxit gain move skey it st perms in
   good_run N gain move st (lvl_moves (fst (fst r))) /\ snd (fst r) = run_moves move st (lvl_moves (fst (fst r))).
 Proof.
   induction perms as [|p r IH]; intros it st; cbn [sweeps].
@@ -156,11 +157,11 @@ Proof.
   - destruct (over maxit it).
     + cbn [fst snd]. unfold lvl_moves. cbn [map concat run_moves]. split; [constructor|reflexivity].
     + cbv zeta. destruct (sweep_good p st) as [G F].
-      destruct (moves_of (fst (sweep N thr gain move st p))) as [|m ms] eqn:EM.
+      destruct (moves_of (fst (sweep N thr gain move skey st p))) as [|m ms] eqn:EM.
       * cbn [fst snd]. unfold lvl_moves. cbn [map concat]. rewrite EM. cbn [app]. split; [constructor|exact F].
       * cbn [fst snd]. unfold lvl_moves. cbn [map concat]. rewrite EM.
-        specialize (IH (S it) (snd (sweep N thr gain move st p))). cbv zeta in IH. destruct IH as [G2 F2].
-        fold (lvl_moves (fst (fst (sweeps N thr maxit gain move (S it) (snd (sweep N thr gain move st p)) r)))).
+        specialize (IH (S it) (snd (sweep N thr gain move skey st p))). cbv zeta in IH. destruct IH as [G2 F2].
+        fold (lvl_moves (fst (fst (sweeps N thr maxit gain move skey (S it) (snd (sweep N thr gain move skey st p)) r)))).
         split.
         -- apply good_run_app; [exact G|rewrite <- F; exact G2].
         -- rewrite run_moves_app, <- F. exact F2.
@@ -168,11 +169,11 @@ Qed.
 
 (* the leftover permutations are a suffix that is strictly shorter whenever a sweep was executed *)
 Lemma sweeps_rest perms : forall it st,
-  (length (fst (snd (sweeps N thr maxit gain move it st perms))) <= length perms)%nat.
+  (length (fst (snd (sweeps N thr maxit gain move skey it st perms))) <= length perms)%nat.
 Proof.
   induction perms as [|p r IH]; intros it st; cbn [sweeps]; [cbn; lia|].
   destruct (over maxit it); [cbn [fst snd length]; lia|]. cbv zeta.
-  destruct (moves_of (fst (sweep N thr gain move st p))); cbn [fst snd length]; [lia|].
-  specialize (IH (S it) (snd (sweep N thr gain move st p))). lia.
+  destruct (moves_of (fst (sweep N thr gain move skey st p))); cbn [fst snd length]; [lia|].
+  specialize (IH (S it) (snd (sweep N thr gain move skey st p))). lia.
 Qed.
 End SelectProofs.
